@@ -172,6 +172,7 @@ func (r UnsafeGoMap[K, V]) Updated(k K, v V) MapBase[K, V] {
 func (r UnsafeGoMap[K, V]) Iterator() Iterator[Tuple2[K, V]] {
 	seq := []Tuple2[K, V]{}
 	for k, v := range r {
+		verifYield("gomap.range")
 		seq = append(seq, Tuple2[K, V]{k.(K), v})
 	}
 	return IteratorOfSeq(seq)
